@@ -42,6 +42,15 @@ Definition add_new_observers (fuel : nat) : M unit :=
 
 Definition remove_from_list (o : nat) (l : list nat) : list nat := filter (fun y => y ≠ o) l.
 
+(* remove_from_observed_node (internal_observer.rs:110), the removal from all_observers and
+   check_if_unnecessary (state.rs:270-280) *)
+Definition unlink_observer (fuel : nat) (o : oid) (ob : obs) : M unit :=
+  let n := o_observing ob in
+  upd_node n (fun x => x <| n_observers := remove_from_list o (n_observers x) |>
+                         <| n_num_handlers := n_num_handlers x - zlen (o_handlers ob) |>) ;;;
+  modify (fun s => s <| all_obs := remove_from_list o (all_obs s) |>) ;;;
+  check_if_unnecessary fuel n.
+
 (* unlink_disallowed_observers (state.rs:256) *)
 Definition unlink_disallowed_observers (fuel : nat) : M unit :=
   s <- get ;;
@@ -51,12 +60,7 @@ Definition unlink_disallowed_observers (fuel : nat) : M unit :=
     if negb (o_live ob) then ret tt else
     dassert (ret (match o_state ob with ODisallowed => true | _ => false end)) 402 ;;;
     upd_obs o (fun ob => ob <| o_state := OUnlinked |>) ;;;
-    let n := o_observing ob in
-    (* remove_from_observed_node (internal_observer.rs:110) *)
-    upd_node n (fun x => x <| n_observers := remove_from_list o (n_observers x) |>
-                           <| n_num_handlers := n_num_handlers x - zlen (o_handlers ob) |>) ;;;
-    modify (fun s => s <| all_obs := remove_from_list o (all_obs s) |>) ;;;
-    check_if_unnecessary fuel n).
+    unlink_observer fuel o ob).
 
 (* disallow_future_use (internal_observer.rs:82) *)
 Definition disallow_future_use (o : oid) : M unit :=
